@@ -90,7 +90,9 @@ SPEC = {
             "deleted, the call is retried, repeated after success, close/stop in between; (e) gated schedule on a leveldb whose "
             "journal writes can be parked: DeleteRegion of a pending region parked inside its leveldb delete, Flush started, "
             "delete released; (f) leveldb write faults: Flush and the batch-filling SaveRegion of the region backend return an "
-            "error while every leveldb write fails (embedded DB swapped for a closed one), later flush/close/reopen/full load. "
+            "error while every leveldb write fails (embedded DB swapped for a closed one), later flush/close/reopen/full load; "
+            "(g) fat regions (keys padded to 2-16 KB so that one page of a range scan is several MB) on leveldb and memory kv; "
+            "(h) selector switches (SwitchToDefaultStorage / SwitchToRegionStorage) inside the region-backend histories. "
             "Store sets also get 51-100+ explicitly saved weights inside one page (2 weight keys per store). Foreign keys are planted around both namespaces. "
             "non-trivial = a non-empty successful full load plus a delete/flush/close/stop/weight/error pattern or >= 100 "
             "items; distinct = distinct op sequence",
